@@ -36,6 +36,6 @@ def check(tier="quick", seed=0):
                 continue
             seen.add(key)
             vio.append({"name": "C20/bounded/std-vs-dis", "key": key, "input": "host %s, %s" % (d["host"], x["obj"]), "detail": "%s: dis %s, xdis.std %s" % (x["what"], x["dis"], x["xdis"])})
-    return {"name": "ground.std_diff", "kind": "bounded", "bound": "11 kinds of object x {first_line None, 1000} x hosts %s: instruction fields, argval, findlabels, findlinestarts, 11 module-level tables" % ",".join(hosts),
+    return {"name": "ground.std_diff", "kind": "bounded", "bound": "13 kinds of object (function, method, classmethod, class, generator, coroutine and async generator functions and objects, code, nested code, source) x {first_line None, 1000} x hosts %s: instruction fields, argval, findlabels, findlinestarts, 11 module-level tables" % ",".join(hosts),
             "evaluations": n, "violations": vio, "obligations": [], "samples": [{"program": "ground/std_worker.SRC"}],
             "assumptions": ["bounded: one program with every kind of object; category lists compared as sets of real opcodes (< 256); 3.13's starts_line flag + line_number compared in the older line-or-None form; is_jump_target not compared on 3.13 (its dis also marks exception-range boundaries)"]}
